@@ -44,7 +44,8 @@ def prove(tier, seed):
     planted = selfcheck.planted("C01", tier, S)
     sc = selfcheck.standard(records, names)
     sc["planted_bugs_all_refuted"] = {"ok": planted["tried"] == planted["refuted"], "detail": planted}
-    return dict(records=records, functions=S.info(names), instances=len(tasks), planted=planted, selfchecks=sc, wall=wall)
+    aux = IP.crosscheck_cases(S, seed, 30 if tier == "thorough" else 12)
+    return dict(aux_cases=aux, records=records, functions=S.info(names), instances=len(tasks), planted=planted, selfchecks=sc, wall=wall)
 
 
 def _dims_iter(n, vals, maxprod):
